@@ -448,6 +448,14 @@ pub fn load_known() -> Vec<Known> {
 // -------------------------------------------------------------------------------------------
 // property run
 
+/// Violation classes that are judged by specific properties only.
+pub fn class_owners(class: &str) -> Option<&'static [&'static str]> {
+    match class {
+        "vsock-credit-overstated-after-rerequest" => Some(&["C17"]),
+        _ => None,
+    }
+}
+
 pub fn profile_name() -> &'static str {
     if cfg!(debug_assertions) { "checked" } else { "wrapping" }
 }
@@ -461,6 +469,7 @@ pub fn run_property(spec: &Spec, t: Tier, master: u64, write_evidence: bool) -> 
     let mut new_violations: Vec<(String, String, String)> = Vec::new(); // (key, replay path, msg)
     let mut known_hits: BTreeMap<String, String> = BTreeMap::new();
     let mut seen_keys: BTreeSet<String> = BTreeSet::new();
+    let mut foreign: BTreeSet<String> = BTreeSet::new();
     let scale: f64 = std::env::var("VERIF_SCALE").ok().and_then(|s| s.parse().ok()).unwrap_or(1.0);
     for b in &spec.batches {
         let n = match t {
@@ -484,6 +493,15 @@ pub fn run_property(spec: &Spec, t: Tier, master: u64, write_evidence: bool) -> 
         // triage violations of this batch
         for (idx, seed, o) in &agg.viol {
             let key = o.first_key().unwrap();
+            // A few violation classes belong to one property only although several checks share
+            // the scenario that can observe them; the other checks do not judge them.
+            let class = o.violations[0].class.as_str();
+            if let Some(owners) = class_owners(class) {
+                if !owners.contains(&spec.id) {
+                    foreign.insert(key.clone());
+                    continue;
+                }
+            }
             let full_key = format!("{}:{}", b.name, key);
             if !seen_keys.insert(full_key.clone()) {
                 continue;
@@ -616,6 +634,7 @@ pub fn run_property(spec: &Spec, t: Tier, master: u64, write_evidence: bool) -> 
             ("engine", J::s(format!("native/{}", profile_name()))),
             ("workers", J::u(workers() as u64)),
             ("known_findings_hit", J::Arr(known_hits.keys().map(|k| J::s(k.clone())).collect())),
+            ("observations_owned_by_other_properties", J::Arr(foreign.iter().map(|k| J::s(k.clone())).collect())),
         ]);
         let ev = J::obj(vec![
             ("property_id", J::s(spec.id)),
